@@ -36,9 +36,10 @@ type verifC47Call struct {
 }
 
 type verifC47State struct {
-	c     *Cache
-	calls map[string][]*verifC47Call
-	bad   []string
+	c        *Cache
+	calls    map[string][]*verifC47Call
+	bad      []string
+	computes int
 }
 
 var errVerifC47 = errors.New("injected compute failure")
@@ -66,7 +67,10 @@ func verifC47Scenario(prog map[string][]byte, r *vh.Run, name string) (xplore.Sc
 							switch a {
 							case 0:
 								call.answer = "ok"
-								v := make([]byte, 10)
+								// the same blob can arrive in buffers of different capacity (another pack copy,
+								// a grown decompression buffer): the k-th computation of this execution gets k*8 spare bytes
+								st.computes++
+								v := make([]byte, 10, 10+8*st.computes)
 								for k := range v {
 									v[k] = call.id
 								}
@@ -184,13 +188,19 @@ func TestVerif_C47(t *testing.T) {
 		"xx-y":    {"G1": {'x'}, "G2": {'x'}, "G3": {'y'}},
 		"xy-xz-z": {"G1": {'x', 'y'}, "G2": {'x', 'z'}, "G3": {'z'}},
 		"xyz-x":   {"G1": {'x', 'y'}, "G2": {'z', 'x'}},
+		// three callers of one blob: after a failed computation both waiters recompute and add the same id twice
+		"xxx": {"G1": {'x'}, "G2": {'x'}, "G3": {'x'}},
 	}
 	bound := vh.Pick(r, 2, 3)
-	names := []string{"xx-y", "xy-xz-z", "xyz-x"}
+	names := []string{"xx-y", "xy-xz-z", "xyz-x", "xxx"}
 	for _, name := range names {
 		sc, check := verifC47Scenario(progs[name], r, name)
-		st := vx.Explore(r, t, name, sc, xplore.Options{Policy: xplore.Preempt, Bound: bound, LockPoints: true, MaxSteps: 400}, check)
-		r.Note("scenario %s: bound=%d execs(this shard)=%d maxdev=%d", name, bound, st.Execs, st.MaxDev)
+		b := bound
+		if name == "xxx" && b < 3 {
+			b = 3 // a double add of one blob needs three preemptions (two waiters recomputing after a failure)
+		}
+		st := vx.Explore(r, t, name, sc, xplore.Options{Policy: xplore.Preempt, Bound: b, LockPoints: true, MaxSteps: 400}, check)
+		r.Note("scenario %s: bound=%d execs(this shard)=%d maxdev=%d", name, b, st.Execs, st.MaxDev)
 		r.Sample(map[string]any{"scenario": name, "program": fmt.Sprint(progs[name]), "preemption_bound": bound})
 	}
 	r.Extra("preemption_bound", bound)
